@@ -2,7 +2,7 @@
    the model's functions, and the refinement theorem: on the fragment of the property the keyberon
    layout model (queues, waiting states, one-shot, sequences, chords ... all present) produces, for
    every history, exactly the key lists of the simple layered-keymap model of Spec/Keymap.v. *)
-From KV Require Import Spec.Keymap Keyberon.Layout Proofs.LayoutBasics Proofs.C04Refine.
+From KV Require Import Spec.Keymap Kanata.Glue Proofs.LayoutBasics Proofs.C04Refine Proofs.C04Kanata.
 
 (* no event is lost, duplicated or reordered while fewer than 32 are pending: an event is appended
    at the back of the queue and has no other effect *)
@@ -90,3 +90,35 @@ Theorem C04_refinement_not_vacuous :
      []; []; []; []; [5; 29; 46]; [5; 4]].
 Proof. exact refinement_not_vacuous. Qed.
 Print Assumptions C04_refinement_not_vacuous.
+
+(* ---- the kanata level (src/kanata/mod.rs tick_ms / handle_keystate_changes as modelled in Kanata/Glue.v) ----
+   kfrag: layout tables in the fragment, no defoverrides, sequences not always on.  One millisecond emits exactly the
+   ordered, de-duplicated difference of the held key list: releases of keys no longer held (in the order they were held),
+   then presses of new keys (in keymap order); the whole OS event trace of a run equals that of the layered-keymap model. *)
+Theorem C04_kanata_tick_emits_ordered_difference : forall cfg qq k s,
+  kfrag cfg -> KRel qq k s -> st_ok (kc_layout cfg) s ->
+  Forall (fun q => coord_ok (kc_layout cfg) (q_coord q) = true) qq ->
+  exists k' qq' s',
+    k_tick cfg k = Ok (k', os_diff cfg (k_prev_keys k) (km_keys (held s'))) /\
+    KRel qq' k' s' /\ k_prev_keys k' = km_keys (held s') /\
+    match qq with
+    | [] => qq' = [] /\ s' = s
+    | e :: t => qq' = aged_q t /\ s' = (if q_press e then km_press (kc_layout cfg) (q_coord e) s else km_release (q_coord e) s)
+    end.
+Proof. exact tick_kanata_refines. Qed.
+Print Assumptions C04_kanata_tick_emits_ordered_difference.
+
+Theorem C04_kanata_output_refines : forall cfg pause is,
+  kfrag cfg -> hist_ok (kc_layout cfg) 0 is = true -> physical is = true ->
+  k_run cfg (k_init (init_layout pause)) is = Ok (km_os_run cfg km_init [] is).
+Proof. exact fresh_k_run_refines. Qed.
+Print Assumptions C04_kanata_output_refines.
+
+Theorem C04_kanata_refinement_not_vacuous :
+  frag_cfg (kc_layout ex_kcfg) = true /\ kc_overrides ex_kcfg = [] /\ kc_seq_always_on ex_kcfg = false /\
+  hist_ok (kc_layout ex_kcfg) 0 ex_hist = true /\ physical ex_hist = true /\
+  km_os_run ex_kcfg km_init [] ex_hist =
+    [[]; []; []; [KDown 31]; []; []; []; [KDown 29; KDown 46]; []; []; [KUp 31]; [KUp 29; KUp 46];
+     []; []; []; []; [KDown 5; KDown 29; KDown 46]; [KUp 29; KUp 46; KDown 4]].
+Proof. exact kanata_refinement_not_vacuous. Qed.
+Print Assumptions C04_kanata_refinement_not_vacuous.
